@@ -45,7 +45,7 @@ def converter_stream_stage(run, prop, tier, replay, stride):
             o = fl["case"].get("opts") or {"flip": 0, "swap": 0, "hasgeo": 0}
             rec = {"clause": cl, "source": "converter", "flip": o["flip"], "swap": o["swap"], "hasgeo": o["hasgeo"], "case": fl["case"]}
             if line - 1 < len(case_list):
-                rec["replay_case"] = case_list[line - 1]
+                rec["replay_case"] = dict(case_list[line - 1], orig_n=case_list[line - 1].get("orig_n", line - 1))
             run.failure(rec)
     run.traces += s["cases"]
     run.evaluations += s["cases"]
@@ -125,7 +125,7 @@ def run(tier, seed, replay):
                 continue
             rec = {"clause": cl, "flip": o["flip"], "swap": o["swap"], "hasgeo": o["hasgeo"], "case": fl["case"]}
             if line - 1 < len(case_list):
-                rec["replay_case"] = case_list[line - 1]
+                rec["replay_case"] = dict(case_list[line - 1], orig_n=case_list[line - 1].get("orig_n", line - 1))
             run.failure(rec)
     run.traces += s["cases"]
     run.evaluations += s["cases"]
@@ -141,7 +141,7 @@ def run(tier, seed, replay):
             rec = {"clause": cl, "flip": o["flip"], "swap": o["swap"], "hasgeo": o["hasgeo"], "case": fl["case"]}
             idx = fl["case"]["id"]
             if idx < len(case_list):
-                rec["replay_case"] = case_list[idx]
+                rec["replay_case"] = dict(case_list[idx], orig_n=case_list[idx].get("orig_n", idx))
             run.failure(rec)
     run.traces += sc["cases"]
     run.evaluations += sc["cases"]
